@@ -41,6 +41,9 @@ func recvCorpus() []struct {
 		{0, []rop{dgood(0, []byte("ABC")), {kind: 'C'}, dgood(1, []byte("DEF")), rd(8), rd(8)}},        // local close: later data must be refused, not panic
 		{0, []rop{{kind: 'C'}, dgood(0, []byte("ABC")), dgood(0, []byte("ABC"))}},
 		{0, []rop{dgood(0, nil), dgood(1, []byte("Z")), rd(4)}},
+		// both directions at once on one connection
+		{0, []rop{{kind: 'w', data: []byte("hello")}, dgood(0, []byte("ABC")), {kind: 'w', data: []byte("wo")}, bad(1, "REVG!!!!", "corrupt"), {kind: 'w', data: []byte("rld!")}, dgood(1, []byte("DEF")), rd(16), {kind: 'C'}}},
+		{8, []rop{dgood(0, []byte("ABCDEF")), {kind: 'w', data: []byte("xy")}, {kind: 'c'}, {kind: 'w', data: []byte("late")}, rd(16), rd(4)}},
 	}
 }
 
@@ -73,6 +76,12 @@ func randRecv(rnd *common.Rand) (int, []rop) {
 		case k == 11 && !closed && rnd.Chance(1, 2):
 			closed = true
 			ops = append(ops, rop{kind: "cC"[rnd.Intn(2)]})
+		case k == 12 || k == 13:
+			b := make([]byte, rnd.Intn(9))
+			for j := range b {
+				b[j] = byte(rnd.Intn(256))
+			}
+			ops = append(ops, rop{kind: 'w', data: b})
 		default:
 			ops = append(ops, rop{kind: 'r', n: 1 + rnd.Intn(9)})
 		}
